@@ -289,22 +289,29 @@ def evaluate(ctx, histories, own, real_cmd, model_cmd, env, dump_every=1, label=
     return problems
 
 
-def shrink(ctx, seq, own, real_cmd, model_cmd, env, kind):
-    """delta-debug the op list while the same kind of problem persists"""
+def shrink(ctx, seq, own, real_cmd, model_cmd, env, kind, budget_s=90):
+    """delta-debug the op list (chunks of n/2, n/4, … 1 ops) while the same kind of problem persists; bounded in time so
+    that a tree on which thousands of long histories fail still reports within minutes"""
+    t_end = time.time() + budget_s
     def fails(s):
         pr = evaluate(_NullCtx(), [s], own, real_cmd, model_cmd, env)
         return any(k == kind for _, k, _ in pr)
     cur = list(seq)
-    changed = True
-    while changed and len(cur) > 1:
+    chunk = max(1, len(cur) // 2)
+    while len(cur) > 1 and time.time() < t_end:
         changed = False
-        for i in range(len(cur)):
-            cand = cur[:i] + cur[i + 1:]
+        i = 0
+        while i < len(cur) and time.time() < t_end:
+            cand = cur[:i] + cur[i + chunk:]
             # keep the sequence inside the API contract
-            if not in_contract(cand):
-                continue
-            if fails(cand):
-                cur = cand; changed = True; break
+            if cand and in_contract(cand) and fails(cand):
+                cur = cand; changed = True
+            else:
+                i += chunk
+        if chunk == 1 and not changed:
+            break
+        if not changed or chunk > 1:
+            chunk = max(1, chunk // 2)
     return cur
 
 
